@@ -30,6 +30,7 @@ type c05X struct {
 	NFinal        int
 	Stall         int  // 1+index of the chunk inside whose payload the client pauses for longer than ReadTimeout (0: none)
 	StallAccepted bool // that chunk is one the server accepts (otherwise its payload is being discarded)
+	Early         bool // the backend refuses the message after reading only a part of it (lock-step; only the resumption of commands is judged)
 }
 
 func c05Payload(t *Tape, n int, maxLine int, nb *int) []byte {
@@ -151,9 +152,19 @@ func genC05(t *Tape, tier string) *Scenario {
 		x.Reject = true
 		dp.V = Verdict{Kind: vSMTP, Code: 554, Enh: [3]int{5, 6, 0}, Msg: "chunked message rejected"}
 	}
+	lock := t.Bool()
+	if x.Stall == 0 && total > 1 && t.Chance(1, 8) {
+		// fault stratum: the backend gives up on the message in the middle of a chunk whose
+		// rest is still on its way; commands resume exactly after the chunk's declared size
+		x.Early = true
+		x.Reject = true
+		dp.ReadMode = readK
+		dp.ReadK = t.Intn(total)
+		dp.V = Verdict{Kind: vSMTP, Code: 554, Enh: [3]int{5, 6, 0}, Msg: "refused early"}
+		lock = true
+	}
 	sc.BE.Conns = []ConnBackendPlan{{Data: []DataPlan{dp, dp, dp}}}
 
-	lock := t.Bool()
 	w := func() int {
 		if lock {
 			return 1
@@ -283,6 +294,41 @@ func checkC05(sc *Scenario, h *History) []Violation {
 		// After the injected timeout only "never executed as a command" is judged.
 		return out
 	}
+	if x.Early {
+		// Which chunk meets the backend's early refusal is a matter of timing; what is judged
+		// is that commands resume exactly behind every chunk: each NOOP placed after a chunk
+		// is answered 250, the MAIL after the chunks reaches the backend, QUIT gets 221.
+		timedOut := map[int]bool{}
+		for _, i := range ch.AwaitTO {
+			timedOut[i] = true
+		}
+		for i, st := range sc.Conns[0].Steps {
+			want := 0
+			switch {
+			case st.Kind == kMarker && st.Tag == "noop", st.Kind == kMarker && st.Tag == "mail", st.Kind == kRset:
+				want = 250
+			case st.Kind == kQuit:
+				want = 221
+			}
+			if want == 0 {
+				continue
+			}
+			if ch.StepOff[i] < 0 || timedOut[i] || ch.StepCode[i] != want {
+				out = append(out, Violation{Rule: "C05.resume", Detail: fmt.Sprintf("the backend refused the message after %d octets; step %d (%q) behind a chunk was answered %d (sent=%v, timed out=%v), expected %d", sc.BE.Conns[0].Data[0].ReadK, i, clip(string(st.Data), 30), ch.StepCode[i], ch.StepOff[i] >= 0, timedOut[i], want), Witness: wit})
+				return out
+			}
+		}
+		found := false
+		for _, e := range h.Events {
+			if e.Kind == "Mail" && e.Arg == "ok-marker@a.example" {
+				found = true
+			}
+		}
+		if !found {
+			out = append(out, Violation{Rule: "C05.marker-lost", Detail: "the MAIL marker after the chunks never reached the backend", Witness: wit})
+		}
+		return out
+	}
 	replies, _ := parseReplies(ch.Recv)
 	var codes []string
 	for _, r := range replies {
@@ -364,6 +410,11 @@ func classifyC05(sc *Scenario, h *History, st *Stats) string {
 	x := sc.X.(*c05X)
 	nontrivial := false
 	var cl []string
+	if x.Early {
+		if evs := dataEvents(h, 0); len(evs) > 0 && evs[0].Done && len(evs[0].Read) < len(x.Want) {
+			st.Faults["backend_refuses_with_a_part_of_the_chunk_unread"]++
+		}
+	}
 	if x.Stall > 0 {
 		if x.StallAccepted {
 			st.Faults["client_stalls_past_read_deadline_inside_accepted_chunk"]++
@@ -458,7 +509,7 @@ func init() {
 		Real:        []string{"smtp.Server.Serve/handleConn", "smtp.Conn.handleBdat and delivery goroutine", "lineLimitReader", "io.Pipe", "net/textproto", "bufio"},
 		Stub:        []string{"net.Listener (SimListener)", "net.Conn (SimConn)", "Backend/Session/LMTPSession (SimBackend)", "clock (synctest)", "SMTP client (raw driver)"},
 		Assumptions: []string{"a BDAT without a usable size declares nothing to skip: no payload is sent after it and only its single reply and the next marker are judged", "refusal replies are judged to be 5xx, not for their exact code"},
-		Required:    []string{"bdat_line_and_over_limit_run_in_one_segment", "bdat_refused_without_envelope", "zero_size_chunk", "payload_contains_bait_command", "payload_contains_end_marker", "over_limit_chunk_aborts_transfer", "malformed_bdat", "client_stalls_past_read_deadline_inside_accepted_chunk", "client_stalls_past_read_deadline_inside_refused_chunk"},
+		Required:    []string{"bdat_line_and_over_limit_run_in_one_segment", "bdat_refused_without_envelope", "zero_size_chunk", "payload_contains_bait_command", "payload_contains_end_marker", "over_limit_chunk_aborts_transfer", "malformed_bdat", "client_stalls_past_read_deadline_inside_accepted_chunk", "client_stalls_past_read_deadline_inside_refused_chunk", "backend_refuses_with_a_part_of_the_chunk_unread"},
 		QuickRuns:   120000, ThoroughRuns: 3000000,
 	})
 }
